@@ -199,17 +199,26 @@ def _drive_batch(impl, batch, b, data, with_crc, sink):
     n = 0
     limit = len(data) + 16
     checked = False
-    for rec in batch:
-        n += 1
-        _touch_record(rec, sink)
-        if n > limit:
-            if not checked:
-                checked = True
-                limit = 16 + max(len(data), _decomp_bound(data))
-                if n <= limit:
-                    continue
-            b["noadv"] = n
-            break
+    try:
+        for rec in batch:
+            n += 1
+            _touch_record(rec, sink)
+            if n > limit:
+                if not checked:
+                    checked = True
+                    limit = 16 + max(len(data), _decomp_bound(data))
+                    if n <= limit:
+                        continue
+                b["noadv"] = n
+                break
+    finally:
+        if not with_crc:
+            # an application may ask for the checksum after (partly) iterating: whatever the answer or the
+            # exception, it must not read outside the buffers the batch holds by then
+            try:
+                batch.validate_crc()
+            except Exception:
+                pass
     b["n"] = n
 
 
